@@ -54,5 +54,8 @@ def main (args : List String) : IO UInt32 := do
     | .axiomInfo _ =>
       IO.println (Json.mkObj [("axiom-declared", Json.str name.toString)]).compress
     | _ => pure ()
-  IO.eprintln s!"{n} theorems"
+  -- (on standard output like everything else: a line written to standard error could land in
+  --  the middle of a buffered line of the listing when both streams are captured together)
+  IO.println (Json.mkObj [("count", Json.num (JsonNumber.fromNat n))]).compress
+  (← IO.getStdout).flush
   return 0
